@@ -49,6 +49,27 @@ func checkPeerTablesFromAnnouncedSet(c *core.Ctx) {
 					if ld, isLd := e.(*ssa.UnOp); isLd {
 						if ia, isIA := ld.X.(*ssa.IndexAddr); isIA {
 							okElem = isFieldNamed(ia.X, "Peers")
+							// a private builder handed the list: every caller passes <config>.Peers
+							if prm, isP := ir.Strip(ia.X).(*ssa.Parameter); !okElem && isP && prm.Parent() == fn {
+								idx := -1
+								for i, q := range fn.Params {
+									if q == prm {
+										idx = i
+									}
+								}
+								sites := 0
+								okAll := idx >= 0
+								for _, e := range c.P.CG().In[fn] {
+									if e.Site == nil || e.Site.Common().StaticCallee() != fn {
+										continue
+									}
+									sites++
+									if a := e.Site.Common().Args; idx >= len(a) || !isFieldNamed(a[idx], "Peers") {
+										okAll = false
+									}
+								}
+								okElem = okAll && sites > 0
+							}
 						}
 					}
 				}
